@@ -43,6 +43,105 @@ def spec_check(kind, rows, lf, ops, obs, impl):
     return out
 
 
+W_CFG = dict(p_add=3, p_add_many=1, p_remove=2, g_add=7, g_add_many=3, g_remove=6, g_remove_many=2, g_remove_filtered=2,
+             rbac=4, clear=1, load=2.5, save=1, build=2.5, flags=3, query=6, probe=3)
+
+
+def spec_check_cfg(kind, rows, lf, ops, obs, impl):
+    """configuration stratum: the fresh-enforcer SPEC is only demanded while auto_build_role_links has been on
+    since the last rebuild (the property's premise); everything else is model correspondence"""
+    cut = len(ops)
+    for i, op in enumerate(ops):
+        if op[0] in (36, 38) and not op[1]:      # auto-build off / enforcement disabled: outside the premise
+            cut = i
+            break
+    out = spec_check(kind, rows, lf, ops[:cut], obs[:cut], impl)
+    if out or kind.eft or kind.g2 or not kind.g or kind.eff != 0:
+        return out
+    # whatever the configuration: within one block of queries, g() in the matcher and the role queries read the same
+    # role links - a request is allowed iff some rule's object/action(/domain) are equal and its subject is reachable
+    # from the request subject along the roles get_roles_for_user(_in_domain) reports in the same block
+    enabled = True
+    i, n = 0, len(ops)
+    while i < n:
+        if ops[i][0] == 38:
+            enabled = bool(ops[i][1])
+        if ops[i][0] not in QUERY_OPS:
+            i += 1
+            continue
+        j = i
+        while j < n and ops[j][0] in QUERY_OPS:
+            j += 1
+        roles = {}
+        for k in range(i, j):
+            op, res = ops[k], obs[k][0]
+            if op[0] == 55 and res[0] == 0:
+                roles[(0, op[1])] = res[1]
+            elif op[0] == 57 and res[0] == 0:
+                roles[(op[2], op[1])] = res[1]
+        if roles and enabled:
+            for k in range(i, j):
+                op, res = ops[k], obs[k][0]
+                if op[0] != 50 or res[0] != 0:
+                    continue
+                req = op[1]
+                if len(req) != kind.r_arity:
+                    continue
+                dm = req[1] if kind.dom else 0
+                if (dm, req[0]) not in roles:
+                    continue
+                reach, front = {req[0]}, [req[0]]
+                while front:
+                    x = front.pop()
+                    for r in roles.get((dm, x), []):
+                        if r not in reach:
+                            reach.add(r)
+                            front.append(r)
+                want = any(r[kind.i_sub] in reach and (not kind.dom or r[kind.i_dom] == dm)
+                           and r[kind.i_obj] == req[-2] and r[kind.i_act] == req[-1] for r in obs[k][3])
+                if bool(res[1]) != want:
+                    return [(k, "enforce disagrees with the role links reported by get_roles_for_user in the same block of queries "
+                                "(g() in the matcher does not follow the role manager in force)")]
+        i = j
+    return out
+
+
+def targeted_cfg_cases(kind):
+    """role managers out of step with the model and brought back: every sequence
+    [probe] (auto-build off) x {load, clear, -} x {build_role_links, -} x one grouping call x {build_role_links, -},
+    probes after each step.  After load_policy with auto-build off the model's assertions hold deep copies of the
+    role managers until build_role_links re-binds them; g()/g2() in the matcher must follow them at every call."""
+    import itertools
+    A = mgmt.ATOMS.a
+    uni = mgmt.Universe(kind)
+    d = [A("d1")] if kind.dom else []
+    l1 = [A("alice"), A("admin")] + d
+    l2 = [A("bob"), A("admin")] + d
+    p0 = [(0, [A("admin")] + d + [A("data1"), A("read")]), (1, l1)]
+    probe = mgmt.probe_ops(kind, uni)
+    gops = [(1, 1, l2), (3, 1, l1), (2, 1, [l2]), (4, 1, [l1]), (5, 1, 1, [A("admin")]), (10, A("alice"))]
+    for first_probe, mid, b1, gop, b2, back_on in itertools.product((True, False), ((31,), (30,), None), (True, False), gops,
+                                                                    (True, False), (True, False)):
+        ops = list(probe) if first_probe else []
+        ops.append((36, False))
+        if mid:
+            ops.append(mid)
+            ops.extend(probe)
+        if b1:
+            ops.append((34,))
+            ops.extend(probe)
+        ops.append(gop)
+        ops.extend(probe)
+        if b2:
+            ops.append((34,))
+            ops.extend(probe)
+        if back_on:
+            ops.append((36, True))
+            ops.append((31,))
+            ops.extend(probe)
+        yield (p0, True, ops)
+
+
 def targeted_cases(kind):
     """small exhaustive family: every pair/triple of grouping calls over a 2-link universe, probes after each"""
     import itertools
@@ -81,6 +180,23 @@ def run(chk, n_random, targeted_len):
             cases.append((rows, True, g.history(rng.randint(4, 18))))
         mgmt.run_cases(chk, kind, cases, spec_check, label=f"random-{kn}")
         chk.extra["strata"][f"random_{kn}"] = len(cases)
+    for kn in ("rbac", "dom"):
+        kind = mgmt.KINDS[kn]
+        cases = list(targeted_cfg_cases(kind))
+        mgmt.run_cases(chk, kind, cases, spec_check_cfg, label=f"targeted-config-{kn}")
+        chk.extra["strata"][f"targeted_config_{kn}"] = len(cases)
+    # configuration stratum: enable_auto_build_role_links / enable_auto_save / enable_enforce toggles, reloads with
+    # auto-build off followed by build_role_links, decisions before and after (the role functions g/g2 in the
+    # matcher must follow the role managers in force at every call)
+    for kn in ("rbac", "dom", "rbac_res"):
+        kind = mgmt.KINDS[kn]
+        cases = []
+        for _ in range(max(20, n_random // 2)):
+            g = mgmt.Gen(rng, kind, W_CFG)
+            rows = g.rows(rng.randint(0, 8))
+            cases.append((rows, True, g.history(rng.randint(4, 18))))
+        mgmt.run_cases(chk, kind, cases, spec_check_cfg, label=f"config-{kn}")
+        chk.extra["strata"][f"config_{kn}"] = len(cases)
 
 
 def main():
